@@ -12,8 +12,9 @@ Import ListNotations.
    C01_encode_loads_partial: for every Go value in the domain of pyval_of, every protocol 0..5 and
    both StrictUnicode settings, Encode succeeds, its bytes are the assembly of one instruction
    program (one pickle, see C12), and the CPython machine loads that program without error to
-   exactly pyval_of c v - numbers, text, byte payloads, key/value association (Python dict
-   assignment in iteration order under Python equality) and nesting.
+   exactly pyval_of c v - numbers, text, byte payloads, key/value association (a dict is the
+   sequence of assignments made, in iteration order; PyVM.pd_merge gives the entries Python keeps
+   under its key equality) and nesting.
    The domain of pyval_of (hence `_partial`) leaves out what the proof does not cover yet: the
    protocol-0 text forms of strings, floats (and Bytes / []byte, built from them at protocol 0),
    payloads of 2^31 (Python-2 str) / 2^32 bytes or more; and what og-rek does not deliver: text that
@@ -38,12 +39,16 @@ Example C01_nonvacuous :
   forall p, In p [1; 2; 3; 4; 5]%Z ->
     pyval_of (ex_c p)
       (RList [RInt (-129); RUint 18446744073709551615; RStr SBytes [xff; x00];
-              RMap [(RInt 1, RStr SPlain [x61]); (RFloat 4607182418800017408, RBool true)];
+              RMap [(RInt 1, RInt 7); (RFloat 4607182418800017408, RBool true)];
               RCall [x6d] [x6e] [RTuple [RNone; RByteSeq [x01]]]]) =
     Some (PList [PInt (-129); PInt 18446744073709551615; PBytes [xff; x00];
-                 PDict [(PInt 1, PBool true)];
+                 PDict [(PInt 1, PInt 7); (PFloat 4607182418800017408, PBool true)];
                  PCall (PGlobal [x6d] [x6e]) [PTuple [PNone; PBArr [x01]]]]).
 Proof.
   intros p H. cbn in H.
   repeat (destruct H as [H|H]; [subst p; vm_compute; reflexivity|]). contradiction.
 Qed.
+(* ... and the dict CPython ends up with holds one entry: 1 and 1.0 are the same key *)
+Example C01_dict_merge :
+  pd_merge [(PInt 1, PInt 7); (PFloat 4607182418800017408, PBool true)] = [(PInt 1, PBool true)].
+Proof. vm_compute. reflexivity. Qed.
